@@ -1,7 +1,8 @@
 (* C05 - Mech model of the array index checks of the Cb interpreter, site by site.
-   Integers are [Z]; the two conversions the C++ performs silently are explicit:
-     [narrow32] = static_cast<int>(int64_t)   (two's complement truncation to 32 bits)
-     [wrap64]   = uintptr_t / size_t arithmetic (modulo 2^64).
+   Integers are [Z]; the conversions the C++ performs are explicit:
+     [index_to_int] = Variable::index_to_int (fix ff8053c): an index that does not fit an int is an error
+     [narrow32]     = static_cast<int>(int64_t) (two's complement truncation; only the leaf driver still uses it)
+     [wrap64]       = uintptr_t / size_t arithmetic (modulo 2^64).
    Everything is total and computable; the extracted code is run against the repository's own
    Variable::calculate_flat_index (leaf driver) and against `main` (generated programs) by
    harness/props/c05.py on every run. No proofs in this file. *)
@@ -15,6 +16,18 @@ Definition two32 : Z := 4294967296.
 Definition two64 : Z := 18446744073709551616.
 Definition narrow32 (z : Z) : Z := (z + two31) mod two32 - two31.
 Definition wrap64 (z : Z) : Z := z mod two64.
+(* core/interpreter.h:394 Variable::index_to_int: throw "Array index out of bounds" unless INT32_MIN <= i <= INT32_MAX *)
+Definition index_to_int (i : Z) : option Z := if (i <? - two31) || (two31 <=? i) then None else Some i.
+Fixpoint all_to_int (idxs : list Z) : option (list Z) :=
+  match idxs with
+  | [] => Some []
+  | i :: r => match index_to_int i, all_to_int r with
+              | Some i', Some r' => Some (i' :: r')
+              | _, _ => None
+              end
+  end.
+(* INT64_MAX / 16: the guard of fix 2bd3a28 in binary_unary.cpp:290 *)
+Definition max_ptr_offset : Z := 576460752303423487.
 
 (* ---------- src/backend/interpreter/core/interpreter.h:393 Variable::calculate_flat_index ----------
    The loop runs from the last dimension to the first with the accumulators (flat_index,
@@ -43,35 +56,38 @@ Inductive rw := Rd | Wr.
 Inductive eclass := EBounds    (* message contains "bounds": classified IndexOutOfBoundsError *)
                   | EOther.    (* any other runtime_error text: CheckedError / Custom *)
 
-(* Does this site convert the int64 index to int before testing it?
+(* Does this site pass the int64 index through Variable::index_to_int before testing it?
    ANamed 1-D read : no  - access/array.cpp:778 (flat_index int64), services/expression_service.cpp:88
-   ANamed 1-D write: yes - executors/assignments/simple_assignment.cpp:797, operators/assignment.cpp:152
+   ANamed 1-D write: yes - executors/assignments/simple_assignment.cpp:798, operators/assignment.cpp:152
    ANamed N-D      : yes - managers/arrays/manager.cpp:1343 / 1461 (int_indices)
-   AMember 1-D     : yes - access/array.cpp:216, executors/statement_executor.cpp:440
+   AMember 1-D     : yes - access/array.cpp:216, simple_assignment.cpp:662, executors/statement_executor.cpp:440
    AMember 2-D read: no  - managers/structs/operations.cpp:760 (int64 compare)
-   AMember 2-D write: yes - manager.cpp:1461 *)
+   AMember 2-D write: yes - manager.cpp:1461
+   (before ff8053c these sites truncated with static_cast<int>) *)
 Definition narrows (ak : akind) (rank1 : bool) (m : rw) : bool :=
   match ak, rank1, m with
   | ANamed, true, Rd => false
   | AMember, false, Rd => false
   | _, _, _ => true
   end.
-Definition conv (b : bool) (i : Z) : Z := if b then narrow32 i else i.
+Definition conv (b : bool) (i : Z) : option Z := if b then index_to_int i else Some i.
+Definition conv_all (b : bool) (idxs : list Z) : option (list Z) := if b then all_to_int idxs else Some idxs.
 
 (* Index resolution of one element access: flat cell or the class of the runtime error.
    [stor] is the length of the value vector (array_values / multidim_array_values); every N-D site
    re-tests the flat index against it after the per-dimension loop. *)
 Definition resolve (ak : akind) (m : rw) (dims : list Z) (stor : Z) (idxs : list Z) : Z + eclass :=
+  (* AMember 1-D read: get_struct_member_array_element (and index_to_int, inside the same try) throws,
+     array.cpp:217 catches and rethrows "Member array element not found: s.d[i]" (no "bounds") *)
+  let cls1 := match ak, m with AMember, Rd => EOther | _, _ => EBounds end in
   match dims with
   | [n] =>
       match idxs with
       | [i] =>
-          let i' := conv (narrows ak true m) i in
-          if (i' <? 0) || (n <=? i') then
-            (* AMember read: get_struct_member_array_element throws, array.cpp:217 catches and
-               rethrows "Member array element not found: s.d[i]" (no "bounds" in the text) *)
-            inr (match ak, m with AMember, Rd => EOther | _, _ => EBounds end)
-          else inl i'
+          match conv (narrows ak true m) i with
+          | None => inr cls1
+          | Some i' => if (i' <? 0) || (n <=? i') then inr cls1 else inl i'
+          end
       | _ => inr EOther
       end
   | _ =>
@@ -83,10 +99,14 @@ Definition resolve (ak : akind) (m : rw) (dims : list Z) (stor : Z) (idxs : list
              rank by simple_assignment.cpp:687-715 and succeed.) *)
           inr EBounds
       | _, _, _ =>
-          if negb (Nat.eqb (List.length dims) (List.length idxs)) then inr EOther else
-          match calc_flat dims (map (conv (narrows ak false m)) idxs) with
-          | Some f => if f <? stor then inl f else inr EBounds
-          | None => inr EBounds
+          match conv_all (narrows ak false m) idxs with
+          | None => inr EBounds                                    (* index_to_int, before the rank test *)
+          | Some idxs' =>
+              if negb (Nat.eqb (List.length dims) (List.length idxs')) then inr EOther else
+              match calc_flat dims idxs' with
+              | Some f => if f <? stor then inl f else inr EBounds
+              | None => inr EBounds
+              end
           end
       end
   end.
@@ -95,6 +115,7 @@ Definition resolve (ak : akind) (m : rw) (dims : list Z) (stor : Z) (idxs : list
    A pointer made by &a[i] carries element_index, address = base + 8*element_index and the
    range [array_start_addr, array_end_addr) = [base, base + 8*array_size). *)
 Definition ptr_arith (base n e : Z) (plus : bool) (k : Z) : option Z :=
+  if (max_ptr_offset <? k) || (k <? - max_ptr_offset) then None else      (* fix 2bd3a28: offset * 8 must not wrap *)
   let addr := base + 8 * e in
   let new_addr := if plus then wrap64 (addr + wrap64 (k * 8)) else wrap64 (addr - wrap64 (k * 8)) in
   if (new_addr <? base) || (base + 8 * n <=? new_addr) then None   (* "Pointer arithmetic out of array bounds" *)
@@ -152,10 +173,14 @@ Definition step (ak : akind) (dims : list Z) (base : Z) (s : st) (o : op) : st *
           | [i] => if (i <? 0) || (d <=? i) then (s, RErr EBounds) else (mkst (cells s) (Some i), RUnit)
           | _ => (s, RErr EOther)
           end
-      | _ =>                                     (* address_ops.cpp:170: vector<int>(indices) + calculate_flat_index *)
-          match calc_flat dims (map narrow32 idxs) with
-          | Some f => (mkst (cells s) (Some f), RUnit)
+      | _ =>                                     (* address_ops.cpp:170: index_to_int each + calculate_flat_index *)
+          match all_to_int idxs with
           | None => (s, RErr EBounds)
+          | Some idxs' =>
+              match calc_flat dims idxs' with
+              | Some f => (mkst (cells s) (Some f), RUnit)
+              | None => (s, RErr EBounds)
+              end
           end
       end
   | OPtrAdd k =>
@@ -196,9 +221,13 @@ Definition step (ak : akind) (dims : list Z) (base : Z) (s : st) (o : op) : st *
       end
   | OPtrWrite k v =>
       match ptr s with
-      | Some e => let eff := e + narrow32 k in                    (* int index = static_cast<int>(index_value) *)
-                  if (eff <? 0) || (av_size dims <=? eff) then (s, RErr EBounds)
-                  else (mkst (upd eff v (cells s)) (ptr s), RUnit)
+      | Some e => match index_to_int k with                       (* int index = Variable::index_to_int(index_value) *)
+                  | None => (s, RErr EBounds)
+                  | Some k' =>
+                      let eff := e + k' in
+                      if (eff <? 0) || (av_size dims <=? eff) then (s, RErr EBounds)
+                      else (mkst (upd eff v (cells s)) (ptr s), RUnit)
+                  end
       | None => (s, RErr EOther)
       end
   | ODeref =>
